@@ -408,6 +408,7 @@ func runC01(r *an.Run) {
 			}
 		})
 	windowDiscipline(r)
+	modifiedMarkerDiscipline(r)
 }
 
 func indexParam(fn string) int {
